@@ -175,6 +175,9 @@ func sizeSource(kind string, n int) (src []byte, name string) {
 			n = 2
 		}
 		return []byte("#" + strings.Repeat(".", n-2) + "\n"), name
+	case "blank":
+		// nothing but n line feeds (n = 0: the empty source): the whole program is one RET whose position is the end of input
+		return []byte(strings.Repeat("\n", n)), name
 	case "code":
 		// a code section of about n bytes (two per statement, all on one line: few line feeds, many positions), then a failing operation
 		return []byte(strings.Repeat("print 1;", n/2) + "\nprint 2 + nil\n"), name
